@@ -5,7 +5,7 @@ sub-commands, cmd/shoot/main.go). The model mirrors the algorithm the code uses,
 
     main:            g.ParseFlags(); g.LoadPackage(); srcMap := g.Generate(g)
                      for fname, src := range srcMap { notedownSrc(fname, src); fileNames += fname }
-                     len(srcMap) == 0 -> warn "nothing generated"; else success message lists fileNames
+                     len(srcMap) == 0 -> warn "nothing generated"; else sort.Strings(fileNames); success message lists them
     ParseCommonFlags isTypeSpecified = type != "" && type != "*"; Separate = isTypeSpecified || sep || separate
                      no -type and no -file -> usage, exit 2; -file must end in .go and exist
     LoadPackage      FileName == "" && "*" in TypeNames: first file (Syntax order) having a comment that
@@ -186,16 +186,15 @@ def findAllInOne (cmdline : String) : Pkg → String
 inductive Stop where
   | usage          -- sub.Usage(); os.Exit(2)
   | fatal          -- logx.Fatal*: diagnostic, exit 1
-  | panic          -- Go runtime panic
+  | panic          -- Go runtime panic (none is modelled any more: the known ones were repaired in /repo)
   deriving DecidableEq, Repr
 
 /-! ### the four ListTypes filters (TestFile already applied: the list is the tested files' TypeSpecs) -/
 
-/-- restclient.testNode's loop over the embedded elements; `none` = nil dereference of obj.Pkg() -/
-def ifaceTest : List Embed → Option Bool
-  | [] => some false
-  | .restClient :: _ => some true
-  | .universe :: _ => none
+/-- restclient.testNode's loop over the embedded elements: a universe type (`error`: obj.Pkg() == nil) is skipped -/
+def ifaceTest : List Embed → Bool
+  | [] => false
+  | .restClient :: _ => true
   | _ :: r => ifaceTest r
 
 def listNew : List TSpec → List String
@@ -213,15 +212,11 @@ def listEnum : List TSpec → List String
     | some k => if k.listed then (if t.alias then listEnum r else t.name :: listEnum r) else listEnum r
     | none => listEnum r
 
-def listRest : List TSpec → Except Stop (List String)
-  | [] => pure []
+def listRest : List TSpec → List String
+  | [] => []
   | t :: r =>
     match t.shape with
-    | .iface es =>
-      match ifaceTest es with
-      | none => throw .panic
-      | some true => do let l ← listRest r; pure (t.name :: l)
-      | some false => listRest r
+    | .iface es => if ifaceTest es then t.name :: listRest r else listRest r
     | _ => listRest r
 
 /-- enum's ListTypes warns "alias type … will be ignored" -/
@@ -239,7 +234,7 @@ def listTypes (cmd : Cmd) (pkg : Pkg) (file : String) : Except Stop (List String
   | .new => pure (listNew (testedSpecs file pkg))
   | .map => pure (listMap (testedSpecs file pkg))
   | .enum => pure (listEnum (testedSpecs file pkg))
-  | .rest => listRest (testedSpecs file pkg)
+  | .rest => pure (listRest (testedSpecs file pkg))
 
 /-! ### enum: makeStr's walk over const declarations (stringer's type carry-down) -/
 
@@ -266,30 +261,15 @@ def constsOf (n : String) : Pkg → List String
 
 def namedSpecs (pkg : Pkg) (n : String) : List TSpec := (allTSpecs pkg).filter (·.name == n)
 
-/-- rest: cookClient runs testNode(name, ·) on every TypeSpec of that name -/
-def restNodes : List TSpec → Except Stop Unit
-  | [] => pure ()
-  | t :: r =>
-    match t.shape with
-    | .iface es => match ifaceTest es with
-      | none => throw .panic
-      | some _ => restNodes r
-    | _ => restNodes r
-
 /-- `obj.Type().Underlying().(*types.Basic).Info() & IsInteger == 0` -/
 def nonIntUnder (t : TSpec) : Bool := match t.under with | some k => !k.integer | none => false
 
-/-- rest: hasClient runs testNode(name, ·) on every TypeSpec of that name until one is a RestClient interface;
-    `none` = the nil dereference of an embedded universe type -/
-def restHas : List TSpec → Option Bool
-  | [] => some false
+/-- rest: hasClient — some TypeSpec of that name is a RestClient interface -/
+def restHas : List TSpec → Bool
+  | [] => false
   | t :: r =>
     match t.shape with
-    | .iface es =>
-      match ifaceTest es with
-      | none => none
-      | some true => some true
-      | some false => restHas r
+    | .iface es => ifaceTest es || restHas r
     | _ => restHas r
 
 def makeData (cmd : Cmd) (pkg : Pkg) (specified : Bool) (n : String) : Except Stop Bool :=
@@ -310,10 +290,7 @@ def makeData (cmd : Cmd) (pkg : Pkg) (specified : Bool) (n : String) : Except St
     else pure true
   | .rest =>
     -- hasClient: no RestClient interface of that name -> Fatal "is not an interface embedding shoot.RestClient"
-    match restHas ts with
-    | none => throw .panic
-    | some false => throw .fatal
-    | some true => do restNodes ts; pure true
+    if restHas ts then pure true else throw .fatal
   | .map =>
     -- src: a struct TypeSpec of that name (exportedness only matters in ListTypes) else Fatal;
     -- dest: missing -> Fatal when specified, nil otherwise
@@ -366,7 +343,22 @@ inductive Outcome where
   | done (written : List (OutName × List String)) (listed : List OutName) (warned : Bool)
   deriving Repr, DecidableEq
 
-/-- main's loop `for fname, src := range srcMap { notedownSrc(fname, src); fileNames = append(fileNames, fname) }` -/
+/-- byte-wise lexicographic order (sort.Strings on ASCII names) -/
+def leChars : List Char → List Char → Bool
+  | [], _ => true
+  | _ :: _, [] => false
+  | a :: r, b :: t => a.toNat < b.toNat || (a.toNat == b.toNat && leChars r t)
+
+def insertName (cmd : Cmd) (x : OutName) : List OutName → List OutName
+  | [] => [x]
+  | y :: r => if leChars (x.render cmd).toList (y.render cmd).toList then x :: y :: r else y :: insertName cmd x r
+
+/-- `sort.Strings(fileNames)` -/
+def sortNames (cmd : Cmd) : List OutName → List OutName
+  | [] => []
+  | x :: r => insertName cmd x (sortNames cmd r)
+
+/-- main's loop `for fname, src := range srcMap { notedownSrc(dir, fname, src); fileNames = append(fileNames, fname) }` -/
 def mainLoop : List (OutName × List String) → List (OutName × List String) × List OutName
   | [] => ([], [])
   | (k, v) :: r => let (w, l) := mainLoop r; ((k, v) :: w, k :: l)
@@ -409,8 +401,8 @@ def skipWarn (cmd : Cmd) (specified : Bool) (names produced : List String) : Boo
   cmd == .enum && specified && names.any (fun n => !produced.contains n)
 
 /-- main after Generate -/
-def finish (srcMap : List (OutName × List String)) (warned : Bool) : Outcome :=
-  .done (mainLoop srcMap).1 (mainLoop srcMap).2 (warned || srcMap.isEmpty)
+def finish (cmd : Cmd) (srcMap : List (OutName × List String)) (warned : Bool) : Outcome :=
+  .done (mainLoop srcMap).1 (sortNames cmd (mainLoop srcMap).2) (warned || srcMap.isEmpty)
 
 def run (cmd : Cmd) (pkg : Pkg) (fl : Flags) : Outcome :=
   match flagCheck pkg fl with
@@ -422,7 +414,7 @@ def run (cmd : Cmd) (pkg : Pkg) (fl : Flags) : Outcome :=
       match keep cmd pkg (specifiedOf fl) names with
       | .error e => .stop e
       | .ok produced =>
-        finish (srcMapOf (specifiedOf fl || fl.sep) fl.file (aioOf pkg fl) fnm produced)
+        finish cmd (srcMapOf (specifiedOf fl || fl.sep) fl.file (aioOf pkg fl) fnm produced)
           (warned || skipWarn cmd (specifiedOf fl) names produced)
 
 end ShootVerif.Cli
